@@ -46,7 +46,7 @@ VARIABLES kind, wsize, onlyLab,   \* configuration of the object (fixed)
           owned,                  \* parameter passed as a caller-owned dict?
           proto, protoSym,        \* what the caller set (constructor / set_params)
           params, sym,            \* what get_params reports; holds a symbolic default?
-          paramDicts,             \* contents of the caller-owned dicts
+          paramDicts, protoDicts, \* contents of the caller-owned dicts (now / as the caller set them)
           model,                  \* abstract fitted model (see above)
           given,                  \* training calls since the last fit: <<op, D>>
           window,                 \* sliding window: last wsize samples given
@@ -54,7 +54,7 @@ VARIABLES kind, wsize, onlyLab,   \* configuration of the object (fixed)
           ustate,                 \* strategies: number of committed updates
           last, steps             \* last call [op, d]; number of calls so far
 
-vars == <<kind, wsize, onlyLab, owned, proto, protoSym, params, sym, paramDicts,
+vars == <<kind, wsize, onlyLab, owned, proto, protoSym, params, sym, paramDicts, protoDicts,
           model, given, window, fitted, clean, ustate, last, steps>>
 
 Missing == -1
@@ -101,10 +101,14 @@ RefCalls == RefCallsOf(kind, given, window)
 FreshModel(p, s, calls) == [i \in DOMAIN calls |-> Entry(calls[i][1], p, s, calls[i][2])]
 
 ---------------------------------------------------------------------------
-InitWith(k, w, ol, own, p, s) ==
+Resolved(D) == <<"resolved", Shape(D)>>
+\* design level: the caller-owned dict holds the parameter value
+DictOf(own, p) == IF own THEN <<p>> ELSE <<>>
+
+InitWith(k, w, ol, own, p, s, pd) ==
     /\ kind = k /\ wsize = w /\ onlyLab = ol /\ owned = own
     /\ proto = p /\ protoSym = s /\ params = p /\ sym = s
-    /\ paramDicts = IF own THEN <<p>> ELSE <<>>
+    /\ paramDicts = pd /\ protoDicts = pd
     /\ model = <<>> /\ given = <<>> /\ window = <<>>
     /\ fitted = FALSE /\ clean = TRUE /\ ustate = 0
     /\ last = [op |-> "Init", d |-> <<>>] /\ steps = 0
@@ -112,15 +116,14 @@ InitWith(k, w, ol, own, p, s) ==
 Init == \E k \in Kinds, pv \in ParamVals, own \in BOOLEAN :
           \E w \in (IF k = "window" THEN WindowSizes ELSE {0}),
              ol \in (IF k = "window" THEN BOOLEAN ELSE {FALSE}) :
-               InitWith(k, w, ol, own, pv[1], pv[2])
+               InitWith(k, w, ol, own, pv[1], pv[2], DictOf(own, pv[1]))
 
-Resolved(D) == <<"resolved", Shape(D)>>
 
 \* a resolved default that is written back (deviation only)
 ParamsAfterResolve(D) ==
     IF WriteBack /\ sym
     THEN /\ params' = Resolved(D) /\ sym' = FALSE
-         /\ paramDicts' = IF owned THEN <<Resolved(D)>> ELSE paramDicts
+         /\ paramDicts' = DictOf(owned, Resolved(D))
     ELSE UNCHANGED <<params, sym, paramDicts>>
 
 Call(op, D) == /\ steps < MaxDepth /\ steps' = steps + 1
@@ -136,7 +139,7 @@ Fit(D) ==
     /\ model' = << Entry("Fit", params, sym, IF kind = "window" THEN window' ELSE D) >>
     /\ ParamsAfterResolve(IF kind = "window" THEN window' ELSE D)
     /\ fitted' = TRUE /\ clean' = TRUE
-    /\ UNCHANGED <<proto, protoSym, ustate>>
+    /\ UNCHANGED <<proto, protoSym, protoDicts, ustate>>
 
 PartialFit(D) ==
     /\ kind # "strategy" /\ Call("PartialFit", D)
@@ -147,11 +150,11 @@ PartialFit(D) ==
                 ELSE Append(model, Entry("PartialFit", params, sym, D))
     /\ ParamsAfterResolve(IF kind = "window" THEN window' ELSE D)
     /\ fitted' = TRUE
-    /\ UNCHANGED <<proto, protoSym, clean, ustate>>
+    /\ UNCHANGED <<proto, protoSym, protoDicts, clean, ustate>>
 
 Predict ==
     /\ kind # "strategy" /\ fitted /\ Call("Predict", <<>>)
-    /\ UNCHANGED <<proto, protoSym, params, sym, paramDicts, model, given, window,
+    /\ UNCHANGED <<proto, protoSym, protoDicts, params, sym, paramDicts, model, given, window,
                    fitted, clean, ustate>>
 
 \* query of a stream strategy / query_by_utility of a budget manager; D are
@@ -159,18 +162,18 @@ Predict ==
 Query(D) ==
     /\ kind = "strategy" /\ Call("Query", D)
     /\ ParamsAfterResolve(D)
-    /\ UNCHANGED <<proto, protoSym, model, given, window, fitted, clean, ustate>>
+    /\ UNCHANGED <<proto, protoSym, protoDicts, model, given, window, fitted, clean, ustate>>
 
 Update ==
     /\ kind = "strategy" /\ last.op \in {"Query", "Update"} /\ Call("Update", <<>>)
     /\ ustate' = ustate + 1
-    /\ UNCHANGED <<proto, protoSym, params, sym, paramDicts, model, given, window,
+    /\ UNCHANGED <<proto, protoSym, protoDicts, params, sym, paramDicts, model, given, window,
                    fitted, clean>>
 
-SetParams(p, s) ==
+SetParams(p, s, pd) ==
     /\ Call("SetParams", <<>>)
     /\ proto' = p /\ protoSym' = s /\ params' = p /\ sym' = s
-    /\ paramDicts' = IF owned THEN <<p>> ELSE <<>>
+    /\ paramDicts' = pd /\ protoDicts' = pd
     /\ clean' = FALSE
     /\ UNCHANGED <<model, given, window, fitted, ustate>>
 
@@ -178,14 +181,14 @@ SetParams(p, s) ==
 Fresh ==
     /\ Call("Fresh", <<>>)
     /\ params' = proto /\ sym' = protoSym
-    /\ paramDicts' = IF owned THEN <<proto>> ELSE <<>>
+    /\ paramDicts' = protoDicts
     /\ model' = <<>> /\ given' = <<>> /\ window' = <<>>
     /\ fitted' = FALSE /\ clean' = TRUE /\ ustate' = 0
-    /\ UNCHANGED <<proto, protoSym>>
+    /\ UNCHANGED <<proto, protoSym, protoDicts>>
 
 Next == \/ \E D \in DataSets : Fit(D) \/ PartialFit(D) \/ Query(D)
         \/ Predict \/ Update \/ Fresh
-        \/ \E pv \in ParamVals : SetParams(pv[1], pv[2])
+        \/ \E pv \in ParamVals : SetParams(pv[1], pv[2], DictOf(owned, pv[1]))
 
 Spec == Init /\ [][Next]_vars
 
@@ -198,7 +201,7 @@ TypeOK == /\ kind \in {"plain", "window", "strategy"}
 \* C13: nothing but the constructor / set_params changes what get_params
 \* reports or the contents of the caller's dicts
 ParamsFrameInv == /\ params = proto /\ sym = protoSym
-                  /\ paramDicts = (IF owned THEN <<proto>> ELSE <<>>)
+                  /\ paramDicts = protoDicts
 ParamsFrame == [][last'.op \notin {"SetParams", "Fresh"} => UNCHANGED <<params, paramDicts>>]_vars
 
 \* C13: the model after any history equals the model of a fresh clone on which
